@@ -1694,6 +1694,20 @@ def classify(loop):
     """{var: Fold} for a for-loop; loop.filter is set to the accumulator-free guard of the whole body."""
     F, ups = strip_filter(loop, dict(loop.update))
     loop.filter = F
+    # a seed test that cannot hold: `if best is None or e >= best` with best started from a number (a `bound=0` handed to a shared
+    # helper whose other callers pass None) - the accumulator is only ever the seed or an element's key, never None.  The same
+    # condition guards the companions of `best` (the arg variable): it is rewritten wherever it occurs
+    rewrites = {}
+    for v0, u0 in ups.items():
+        acc0 = ("acc", loop.id, v0)
+        init0 = loop.init.get(v0, UNBOUND)
+        if u0[0] == "ite" and u0[3] == acc0 and u0[1][0] == "or" and len(u0[1][1]) == 2 and is_const(init0) and isinstance(init0[1], (int, float)) and not isinstance(init0[1], bool):
+            dead = [x for x in u0[1][1] if x[0] == "cmp" and x[1] in ("is", "==") and C(None) in (x[2], x[3]) and acc0 in (x[2], x[3])]
+            live = [x for x in u0[1][1] if x not in dead]
+            if len(dead) == 1 and len(live) == 1 and not mentions_acc(u0[2], loop.id):
+                rewrites[u0[1]] = live[0]
+    if rewrites:
+        ups = {v0: (("ite", rewrites[u0[1]], u0[2], u0[3]) if u0[0] == "ite" and u0[1] in rewrites else u0) for v0, u0 in ups.items()}
     out = {}
     ext = {}
     for v, u in ups.items():
